@@ -253,6 +253,10 @@ def main(argv=None):
                 "rule": "evaluations = symbolic paths explored by CrossHair plus z3 queries of the AST->z3 engine, summed over "
                         "obligations; distinct_nontrivial = obligations discharged that explored >= 2 feasible paths or >= 1 unsat query",
                 "samples": samples,
+                "z3_queries_total": sum(int(x.get("z3_queries") or 0) for x in samples),
+                "z3_seconds_total": round(sum(float(x.get("z3_seconds") or 0) for x in samples), 2),
+                "paths_total": sum(int(x.get("paths") or 0) for x in samples),
+                "functions_encoded": sorted({f for x in samples for f in x["functions"]}),
                 "exhaustive": False,
                 "known_findings_reported": known_printed,
             },
